@@ -469,4 +469,72 @@ theorem runC_zero (g : SGraph) (min : Rat) (md seed : Nat) (tr : ATrace) (s : SS
         rw [hcs]
     · cases h
 
+/-! ### the checker with the scope filter refines the checker without it -/
+
+theorem stepsC2_sound (g : SGraph) (min eps : Rat) (md : Nat) :
+    ∀ (tr : FTrace) (s : SState) (q : Equivs) (s' : SState) (q' : Equivs),
+      stepsC2 g min eps md s q tr = some (s', q') → stepsC g min eps md s tr.proj = some s'
+  | [], s, q, s', q', h => by
+    simp only [stepsC2, Option.map_eq_some_iff, Prod.mk.injEq] at h
+    obtain ⟨a, ha, rfl, _⟩ := h
+    simpa [FTrace.proj] using ha
+  | (n, es) :: rest, s, q, s', q', h => by
+    simp only [stepsC2] at h
+    split at h
+    · rename_i hc
+      simp only [Bool.and_eq_true] at hc
+      cases hv : visitC g min eps s n (proj es) with
+      | none => rw [hv] at h; cases h
+      | some s1 =>
+        rw [hv] at h
+        have ih := stepsC2_sound g min eps md rest s1 _ s' q' h
+        have : FTrace.proj ((n, es) :: rest) = (n, proj es) :: FTrace.proj rest := by simp [FTrace.proj]
+        rw [this]
+        simp only [stepsC, hc.1.1, hc.1.2, Bool.and_self, if_true, hv]
+        exact ih
+    · cases h
+
+theorem runC2_sound (g : SGraph) (min eps : Rat) (md seed : Nat) (sc : String) (tr : FTrace) (s : SState) (q : Equivs)
+    (h : runC2 g min eps md seed sc tr = some (s, q)) : runC g min eps md seed tr.proj = some s := by
+  cases tr with
+  | nil =>
+    simp only [runC2, Option.map_eq_some_iff, Prod.mk.injEq] at h
+    obtain ⟨a, ha, rfl, _⟩ := h
+    simpa [FTrace.proj] using ha
+  | cons p rest =>
+    obtain ⟨n, es⟩ := p
+    simp only [runC2] at h
+    split at h
+    · rename_i hc
+      cases hv : visitC g min eps (SState.init seed) seed (proj es) with
+      | none => rw [hv] at h; cases h
+      | some s1 =>
+        rw [hv] at h
+        have := stepsC2_sound g min eps md rest s1 _ s q h
+        have hp : FTrace.proj ((n, es) :: rest) = (n, proj es) :: FTrace.proj rest := by simp [FTrace.proj]
+        rw [hp]
+        simp only [runC, hc.1, hc.2.1, and_self, if_true, hv]
+        exact this
+    · cases h
+
+/-- what the scope check demands of the edges of one iteration -/
+theorem scopeOk_kinds (q : Equivs) (min eps scSelf : Rat) (es : List FEdge) (h : scopeOk q min eps scSelf es = true) :
+    ∀ f ∈ es, (f.edge.kind = .inter → f.considered = false) ∧
+      (f.edge.kind = .toHub ∨ f.edge.kind = .intra → f.considered = true) ∧
+      (f.considered = false → f.assigned = none) := by
+  intro f hf
+  unfold scopeOk at h
+  have := List.all_eq_true.mp h f hf
+  simp only [Bool.and_eq_true, Bool.or_eq_true, Option.isNone_iff_eq_none] at this
+  obtain ⟨h1, h2⟩ := this
+  refine ⟨?_, ?_, ?_⟩
+  · intro hk
+    simp only [admissible, hk] at h1
+    simpa using h1.symm
+  · rintro (hk | hk) <;> simp only [admissible, hk] at h1 <;> simpa using h1.symm
+  · intro hc
+    rcases h2 with h2 | h2
+    · rw [hc] at h2; cases h2
+    · exact h2
+
 end EdxmlProps.Search
